@@ -204,16 +204,19 @@ def check(run):
         run.count('guard' if c['guard_us'] else 'noguard')
     res = common.standard_flow(run, spec, cases)
     check_stopped_before_init(run)
+    check_output_after_crashed_run(run)
     for c, o, ch in res:
         for e in o['log']:
             run.count('log_' + e[0] + (('_' + str(e[3])) if e[0] == 'end' else ''))
 
 
-def check_stopped_before_init(run):
+def check_stopped_before_init(run, only=None):
     """A circuit that is terminated while another block is still being initialised: the OutputAsync
     block was started but never initialised; stop_data must still run, be reported once and be the
     last run, and the output must come back to 0 (the acceptor's rule 'output = number of active runs')."""
     for mode in ('wait', 'cancel', 'start'):
+        if only is not None and mode != only:
+            continue
         obs = dict(calls=[], results=[], output=None, error=None, harness=None)
 
         async def main(loop, mode=mode, obs=obs):
@@ -267,5 +270,65 @@ def check_stopped_before_init(run):
                           f"harness: {obs['harness']}", clause='stopped_before_init:' + mode, concrete=True)
 
 
+def check_output_after_crashed_run(run, only=None):
+    """'The block's output always equals the number of active runs and returns to 0 when idle' - also
+    when a run ends before the coroutine could be called at all (event data without an item listed
+    in f_args/f_kwargs; 'start' and 'cancel' mode, where such a run does not stop the simulation).
+    Only the output clause is decided here: the result-event clause is about well-formed events."""
+    for mode in ('cancel', 'start'):
+        if only is not None and mode != only:
+            continue
+        obs = dict(seen=[], outputs=[], error=None, harness=None)
+
+        async def main(loop, mode=mode, obs=obs):
+            edzed.reset_circuit()
+            circuit = edzed.get_circuit()
+
+            async def coro(value, *, level):
+                obs['seen'].append([value, level, out.output])
+                await asyncio.sleep(0.03)
+            out = edzed.OutputAsync('out', coro=coro, mode=mode, f_args=('value',), f_kwargs=('level',),
+                                    on_error=None, stop_timeout=10)
+            task = asyncio.create_task(circuit.run_forever())
+            await circuit.wait_init()
+            put = edzed.ExtEvent(out, 'put').send
+            obs['outputs'].append(out.output)
+            put('A')                               # no 'level': the run ends with a KeyError
+            await asyncio.sleep(0.02)
+            obs['outputs'].append(out.output)      # idle
+            put('B', level=1)
+            await asyncio.sleep(0.01)
+            obs['outputs'].append(out.output)      # one run
+            await asyncio.sleep(0.05)
+            obs['outputs'].append(out.output)      # idle
+            obs['error'] = None if circuit.error is None else repr(circuit.error)[:200]
+            try:
+                await circuit.shutdown()
+            except BaseException:                  # noqa
+                pass
+            obs['outputs'].append(out.output)
+        try:
+            vloop.run_virtual(main, wall_limit_s=10.0)
+        except BaseException as err:               # noqa
+            obs['harness'] = repr(err)[:200]
+        finally:
+            edzed.reset_circuit()
+        run.add_case(dict(crashed_run=mode), True)
+        run.count('crashed_run')
+        ok = (obs['harness'] is None and obs['outputs'] == [0, 0, 1, 0, 0] and obs['seen'] == [['B', 1, 1]])
+        if not ok:
+            run.violation('monitor', dict(case=dict(crashed_run=mode), observed=obs),
+                          f"OutputAsync(mode={mode}): a run that ended before the coroutine was called (event data "
+                          f"without the 'level' item), then a well-formed event: outputs at [start, idle, one run, "
+                          f"idle, stopped] = {obs['outputs']} (expected [0, 0, 1, 0, 0]), runs seen (value, level, "
+                          f"output) = {obs['seen']}; Circuit.error={obs['error']}; harness: {obs['harness']}",
+                          clause='output_after_crashed_run:' + mode, concrete=True)
+
+
 def replay(run, path):
+    _, case = common.load_replay_case(path)
+    if isinstance(case, dict) and 'stopped_before_init' in case:
+        return common.directed_replay(run, path, lambda: check_stopped_before_init(run, case['stopped_before_init']))
+    if isinstance(case, dict) and 'crashed_run' in case:
+        return common.directed_replay(run, path, lambda: check_output_after_crashed_run(run, case['crashed_run']))
     return common.std_replay(run, C12(), path)
